@@ -5,7 +5,7 @@ identities of the objects involved). Items that were already there before the op
 must be explained by the region predicate of a listed known finding (then it is attributed to it) — otherwise it is
 reported as a violation with the history as witness.
 """
-from harness.c09_ops import RANK, ALLOWED_IN, op_to_json, op_line, cssmods, Spec, BROKEN_TAILS
+from harness.c09_ops import RANK, ALLOWED_IN, op_to_json, op_line, cssmods, Spec, BROKEN_TAILS, items_text
 
 CLAUSE = {
     'order': 'rules are ordered @charset < @import < @namespace < @variables < style/@media/@page/@font-face '
@@ -29,6 +29,10 @@ CLAUSE = {
 K_DECL = 'C09-replaced-declaration-keeps-parent'
 K_PROP = 'C09-removed-property-keeps-parent'
 K_PARENT = 'C09-rule-parent-not-maintained'
+K_RAW = 'C09-raw-list-edit'
+K_REINS = 'C09-rule-reinserted'
+K_SHAREDB = 'C09-shared-declaration-block'
+K_SHAREDP = 'C09-shared-property'
 KNOWN_OF_CLAUSE = {'gonedecl': K_DECL, 'goneprop': K_PROP, 'parent': K_PARENT}
 
 
@@ -93,11 +97,13 @@ def items_of(st):
         st.decls[id(d)] = (d, o.typeString)
         for p in d.getProperties(all=True):
             cur_prop.add(id(p))
-            st.props[id(p)] = (p, o.typeString)
+            st.oprops[id(p)] = (p, o.typeString)
+    for i, p in st.props.items():
+        st.oprops.setdefault(i, (p, 'operation'))       # Property objects handed to setProperty
     for i, (d, owner) in st.decls.items():
         if i not in cur_decl and d.parentRule is not None:
             out[('gonedecl', i)] = 'declaration block replaced in a %s: parentRule is %r' % (owner, d.parentRule)
-    for i, (p, owner) in st.props.items():
+    for i, (p, owner) in st.oprops.items():
         # a property names a block that does not hold it (a block that was itself replaced still holds its properties)
         if i not in cur_prop and p.parent is not None and not any(q is p for q in p.parent.getProperties(all=True)):
             out[('goneprop', i)] = 'property %s removed from the block of a %s: parent is %r' % (p.name, owner, p.parent)
@@ -136,7 +142,7 @@ class Oracle:
 
     def witness(self, ops, raising):
         return {'ops': [op_to_json(o) for o in ops], 'raising': raising,
-                'lines': [(op_line(o) or 'decl %s %s' % (list(o[1]), o[2])) +
+                'lines': [(op_line(o) or 'decl %s %s' % (list(o[1]), o[2])) + (' text=%r' % items_text(o[2]) if o[0] in ('dnew', 'dtext') else '') +
                           (' tail=%r' % BROKEN_TAILS[o[3] % len(BROKEN_TAILS)] if o[0] == 'nbroken' else '') for o in ops]}
 
     def after(self, st, op, out, pre, ops, raising):
@@ -175,7 +181,30 @@ class Oracle:
         attributed only while their witness still reproduces on the tree under test (probed at start): once the
         fixes are in, a regression is a violation."""
         f = KNOWN_OF_CLAUSE.get(k[0])
-        return f if f in self.active_known else None
+        if f in self.active_known:
+            return f
+        # edits around the DOM methods: the object removed / inserted through the list object keeps / gets no back pointer
+        raw = st.raw_objs
+        if (k[0] in ('gone', 'parent', 'charset') and k[1] in raw) or (
+                k[0] == 'link' and k[1] in raw and k[2] in ('parentStyleSheet', 'parentRule')) or (
+                k[0] == 'order' and (k[1] in raw or k[2] in raw)):
+            return K_RAW
+        if k[0] == 'charset':
+            top = list(st.sheet.cssRules)
+            at = [i for i, r in enumerate(top) if id(r) == k[1]]
+            if at and any(id(r) in raw for r in top[:at[0]]):
+                return K_RAW        # an object put in front of the @charset rule through the list object
+        if k[0] in ('link', 'parent') and k[1] in st.reinserted:
+            return K_REINS
+        # a contained object handed in a second time: the block / property is held twice and names one holder
+        if k[0] == 'link' and k[2] == 'style.parentRule':
+            r = st.tracked.get(k[1])
+            if r is not None and id(r._style) in st.shared_blocks:
+                return K_SHAREDB
+        if (k[0] == 'link' and k[2] == 'property.parent' and k[1] in st.shared_props) or (
+                k[0] == 'goneprop' and k[1] in st.shared_props):
+            return K_SHAREDP
+        return None
 
     def check_index(self, st, op, out, pre, ops, raising):
         t = op[0]
